@@ -1,5 +1,5 @@
 (* A small deep-embedded Python / NumPy / SciPy sub-language for the internals of mir_eval/hierarchy.py
-   (_round, _hierarchy_bounds, _count_inversions, _compare_frame_rankings, _gauc, _lca): values, operators with the
+   (_round, _hierarchy_bounds, _count_inversions, _compare_frame_rankings, _gauc, _lca, _meet): values, operators with the
    CPython / NumPy semantics of exactly the operations these functions use, and an environment-based evaluator (the
    architecture of Model/PyStr.v and Model/PatExp.v, neither of which is modified). Definitions only.
 
@@ -15,6 +15,8 @@
      int64 counts / positions of np.unique, the indices of np.argsort. (uint8 wrap-around at 256 levels is outside the
      model, as in Model/Hierarchy.v.) Float arrays: [VQVec] (1-d), [VQMat] (2-d, row-major); integer matrices with
      possibly negative entries ([VZMat]: frame indices after astype(int)).
+   * A 2-d boolean array (np.equal.outer, np.triu) is its shape and its entries ([VBMat r c f]); np.where lists the True cells in
+     row-major order.
    * A scipy.sparse matrix of non-negative integers is the dense list of its rows ([VSp], shape = (number of rows,
      length of the first row)); [VArr2] is the ndarray .toarray() returns.
    * np.argsort returns SOME permutation that sorts its argument (the default quicksort is not stable): the evaluator
@@ -422,6 +424,12 @@ Definition builtin (f : string) (args : list pv) (kws : list (string * pv)) : ou
     | _, _ => UNM end
   else if f =? "np.sum" then
     match args, kws with [VNVec l], [] => OK (zn (fold_right Nat.add 0 l)) | _, _ => UNM end
+  else if f =? "np.array_equal" then                          (* same shape and same entries *)
+    match args, kws with
+    | [VNVec x; VNVec y], [] => OK (VBool (if list_eq_dec Nat.eq_dec x y then true else false))
+    | _, _ => UNM end
+  else if f =? ".any" then
+    match args, kws with [VNVec l], [] => OK (VBool (existsb (fun x => negb (Nat.eqb x 0)) l)) | _, _ => UNM end
   else if f =? "np.concatenate" then
     match args, kws with [VTup [VNVec a; VNVec b]], [] => OK (VNVec (a ++ b)) | _, _ => UNM end
   else if f =? "np.mod" then
